@@ -21,6 +21,10 @@ let () = register "c13.convert" (fun line ->
 (* ---------------------------------------------------------------- comment map / hover (Model/Comments.v, Model/Hover.v) *)
 let res_s f = function Ok a -> f a | Fault _ -> "FAULT" | OutOfFuel -> "OUT-OF-FUEL"
 
+(* which variant of the code the model follows: fix C13-long-comment-doc deployed (Model/Comments.v long_fix_deployed)
+   unless C13_VARIANT=prefix asks for the behaviour before the fix (used to show that the check sees the fix reverted) *)
+let fx = match Sys.getenv_opt "C13_VARIANT" with Some "prefix" -> false | _ -> long_fix_deployed
+
 (* canonical comment map: entries by ascending key, `key:head:short:[line.col=hex,...]` joined by ';' *)
 let cmap_s (es : (z * cinfo) list) : string =
   let keys = List.sort_uniq compare (List.map (fun (k, _) -> int_of_z k) es) in
@@ -29,14 +33,16 @@ let cmap_s (es : (z * cinfo) list) : string =
     | None -> ""
     | Some ci ->
       Printf.sprintf "%d:%s:%s:[%s]" k (bool_s ci.ci_head) (bool_s ci.ci_short)
-        (String.concat "," (List.map (fun c -> Printf.sprintf "%s.%s=%s" (zs c.cl_line) (zs c.cl_col) (hex_of_bytes c.cl_str)) ci.ci_lines)) in
+        (String.concat "," (List.map (fun c ->
+             if ci.ci_short then Printf.sprintf "%s.%s=%s" (zs c.cl_line) (zs c.cl_col) (hex_of_bytes c.cl_str)
+             else "long=" ^ hex_of_bytes c.cl_str) ci.ci_lines)) in
   if keys = [] then "-" else String.concat ";" (List.map one keys)
 
 (* case: "<hex file bytes>". model = the map BeginAnalyze returns *)
 let () = register "c13.cmap" (fun line ->
   let bs = bytes_of_hex (String.trim line) in
   oracle_used := false;
-  let r = comment_writes gbk_oracle classify_tok bs in
+  let r = comment_writes_v fx gbk_oracle classify_tok bs in
   let m = res_s (function None -> "SKIP-TOOMANY" | Some es -> cmap_s es) r in
   (if !oracle_used then "SKIP-ORACLE" else m) ^ "\t-\t-")
 
@@ -74,24 +80,33 @@ let () = register "c13.hover" (fun line ->
       | StHover (i, l, col) ->
         let (rel, bs) = List.nth c.files i in
         let file = bytes_of_string rel in
-        let r = hover gbk_oracle classify_tok gbk file bs (z_of_int l) (z_of_int col) in
+        let r = hover_v fx gbk_oracle classify_tok gbk file bs (z_of_int l) (z_of_int col) in
         (* the property's demand: the label, then the attached comment (trailing, else the block above) cleaned up
-           line by line, bytes unchanged - only stated when every comment of the file is a `--` line comment *)
+           line by line, bytes unchanged *)
         (* for a file of the class of C13_comment_attach_file the demand is read off the declarative table of the
            file's comment lines (spec_comment on file_table: trailing comment, else the maximal block of comment-only
-           lines ending on the line above); otherwise off the recorded entries (spec_attach) *)
+           lines ending on the line above); for a file of the class of C13_comment_attach_long (gaps with long-bracket
+           comments) off the blocks of the file computed from its bytes (spec_attach on file_blocks: a long-bracket
+           comment is a block of its own and DOES count as documentation); otherwise off the recorded entries
+           (spec_attach), stated only when all of them are `--` comments *)
         let tbl = if file_class gbk_oracle classify_tok bs then Some (file_table gbk_oracle bs) else None in
+        let blocks = if tbl = None && file_class_long gbk_oracle classify_tok bs then Some (file_blocks gbk_oracle bs) else None in
+        let strip_long es = List.map (fun (k, ci) -> if ci.ci_short then (k, ci) else (k, { ci with ci_lines = [] })) es in
         let specdoc =
             (fun es ln ->
-               match tbl with
-               | Some t when pure_at t ln = None -> incr in_class_docs; get_str_comment (spec_comment t ln)
+               match tbl, blocks with
+               | Some t, _ when pure_at t ln = None -> incr in_class_docs; get_str_comment (spec_comment t ln)
+               | _, Some b ->
+                 incr in_class_docs;
+                 if spec_attach b ln <> spec_attach (strip_long b) ln then addc "long_doc";
+                 get_str_comment (spec_attach b ln)
                | _ ->
                  if not (List.for_all (fun (_, ci) -> ci.ci_short) es && keys_nodup es) then in_fragment := false;
                  get_str_comment (spec_attach es ln)) in
         (* the demand: the hovered declaration's OWN comment; the server also shows, for a declaration without comment
            that is initialised from another name, the comment of that name (first non-empty along the chain) *)
-        let sp = hover_with gbk_oracle classify_tok false specdoc file bs (z_of_int l) (z_of_int col) in
-        let sp_inh = hover_with gbk_oracle classify_tok true specdoc file bs (z_of_int l) (z_of_int col) in
+        let sp = hover_with_v fx gbk_oracle classify_tok false specdoc file bs (z_of_int l) (z_of_int col) in
+        let sp_inh = hover_with_v fx gbk_oracle classify_tok true specdoc file bs (z_of_int l) (z_of_int col) in
         if show sp <> show sp_inh then addc "inherited_doc";
         Some (show r, show sp)
       | _ -> None) c.steps in
